@@ -160,7 +160,7 @@ var dictForallPrograms = []string{
 	"0 << /a 1 /b 2 /c 3 >> { exch pop add } forall", "systemdict { pop pop } forall", "<< /a 1 /b 2 >> { pop pop 7 } forall",
 	"0 systemdict { pop pop 1 add } forall", "<< /a 1 /b (x) >> { pop pop } forall",
 	"/n 0 def << /a 1 /b 2 >> { pop pop /n n 1 add def } forall n", "5 dict begin << /x 1 /y 2 >> { def } forall x y end",
-	"<< /a 1 /b 2 >> { stop } forall", "errordict { pop pop } forall", "0 errordict { pop pop 1 add } forall",
+	"<< /a 1 /b 2 >> { pop pop stop } forall", "errordict { pop pop } forall", "0 errordict { pop pop 1 add } forall",
 }
 
 var smallPool = []string{"0", "1", "-1", "3", "9223372036854775807", "-9223372036854775808", "0.5", "true", "/a", "(abc)", "[1 2 3]", "{1}", "<< /a 1 >>", "mark"}
